@@ -684,6 +684,41 @@ class _Literals(ast.NodeTransformer):
             return ast.copy_location(ast.List(node.left.elts + node.right.elts, ast.Load()), node)
         return node
 
+    def visit_JoinedStr(self, node):
+        self.generic_visit(node)
+        # an f-string that formats numbers (some field has a format specification) -> the equivalent str.format call:
+        # f"{x:{w}.{d}f}|{y:5d}"  ->  "{:{w0}.{w1}f}|{:5d}".format(x, y, w0=w, w1=d)
+        if not any(isinstance(v, ast.FormattedValue) and v.format_spec is not None for v in node.values):
+            return node
+        fmt, args, kws = [], [], []
+
+        def spec_text(js):
+            out = ""
+            for v in js.values:
+                if isinstance(v, ast.Constant):
+                    out += str(v.value).replace("{", "{{").replace("}", "}}")
+                elif isinstance(v, ast.FormattedValue) and v.format_spec is None and v.conversion == -1:
+                    nm = "w%d" % len(kws)
+                    kws.append(ast.keyword(nm, v.value))
+                    out += "{%s}" % nm
+                else:
+                    raise ValueError
+            return out
+        try:
+            for v in node.values:
+                if isinstance(v, ast.Constant):
+                    fmt.append(str(v.value).replace("{", "{{").replace("}", "}}"))
+                elif isinstance(v, ast.FormattedValue):
+                    conv = {-1: "", 115: "!s", 114: "!r", 97: "!a"}[v.conversion]
+                    sp = ":" + spec_text(v.format_spec) if v.format_spec is not None else ""
+                    fmt.append("{%s%s}" % (conv, sp))
+                    args.append(v.value)
+                else:
+                    return node
+        except (ValueError, KeyError):
+            return node
+        return ast.copy_location(ast.Call(ast.Attribute(ast.Constant("".join(fmt)), "format", ast.Load()), args, kws), node)
+
     def visit_For(self, node):
         self.generic_visit(node)
         # `for w in (A, B): BODY` over a short literal tuple/list of plain chains, without break/continue/else:
